@@ -35,6 +35,10 @@ def run(repo, run, tier):
     # 'reset() restores a pristine system' after ANY failure, also one that strikes before the first step is accepted (counter still 0)
     from .c13 import reset_unconditional
     reset_unconditional(repo, run, rule_id="C12.12")
+    # ... and restores the step size the system was constructed with: the integrators must not rewrite, in place, the step array handed to them (it is the system's
+    # stored dt and, by aliasing, the saved initial step) -- also on an attempt that then fails
+    from .c13 import no_inplace_on_aliases
+    no_inplace_on_aliases(repo, run, rule_id="C12.13")
 
 
 def _hnames(h):
@@ -197,8 +201,8 @@ def atomicity(repo, run, m):
         run.report("C12.3", DS, bad[0] if bad else m.commit_inc, "a failure between the row writes and the counter increment would leave an unpaired or half-written row visible")
 
 
-def trim(repo, run, m):
-    rid = run.rule("C12.6", "the finally block trims the buffers to counter+1 unconditionally, so every exit leaves exactly the committed rows", floor=1)
+def trim(repo, run, m, rule_id="C12.6"):
+    rid = run.rule(rule_id, "the finally block trims the buffers to counter+1 unconditionally, so every exit leaves exactly the committed rows", floor=1)
     t = m.try_
     calls = [st for st in t.finalbody if isinstance(st, ast.Expr) and isinstance(st.value, ast.Call) and dotted(st.value.func) == "self.__trim_soln_space"]
     ok = len(calls) >= 1
@@ -211,7 +215,7 @@ def trim(repo, run, m):
                     ok = False
     run.judged(rid, "finally: %s" % [src(s)[:50] for s in t.finalbody], ok=ok)
     if not ok:
-        run.report("C12.6", DS, t, "the `finally` block does not (unconditionally) trim the solution buffers: after a failure the recorded arrays would "
+        run.report(rule_id, DS, t, "the `finally` block does not (unconditionally) trim the solution buffers: after a failure the recorded arrays would "
                                    "expose unwritten rows", text="finally trim")
     tr = repo.get(DS, "OdeSystem.__trim_soln_space")
     run.analysed_fn(DS, tr)
@@ -222,7 +226,7 @@ def trim(repo, run, m):
     ok2 = got == want
     run.judged(rid, "trim slices: %s" % got, ok=ok2)
     if not ok2:
-        run.report("C12.6", DS, tr, "__trim_soln_space does not cut both buffers to [:counter + 1]", text="trim slices %s" % got)
+        run.report(rule_id, DS, tr, "__trim_soln_space does not cut both buffers to [:counter + 1]", text="trim slices %s" % got)
 
 
 # ------------------------------------------------------------------------------------------------
